@@ -476,3 +476,8 @@ def run_c18(ctx):
     ctx.cov['explanation'] = ('exhaustive for the TLC configurations listed in tlc_runs (%d evaluated states, %d of them also through '
                               'the task pipeline); random beyond them (%d inputs, %d rejected by TLC)'
                               % (n_states, n_pipe, len(batch), rejected))
+    # extra module: the non-statistical comparison tests and the metadata test (Equal.tla, observations only, see conf_equal.py)
+    import conf_equal
+    conf_equal.run(ctx, tlc.workdir('c18equal'))
+
+
